@@ -128,7 +128,7 @@ def _clauses(c):
 class LoopSpec:
     def __init__(self, qual, ordinal, invariants=None, vars=None, havoc=None,
                  decreases=None, index=None, seq=None, unroll=None, ghost=None, entry=None,
-                 head=None):
+                 head=None, body_ensures=None):
         self.qual, self.ordinal = qual, ordinal
         self.invariants = _clauses(invariants)
         self.vars = dict(vars or {})
@@ -143,6 +143,9 @@ class LoopSpec:
         # iteration, visible to the ghost steps
         self.entry = entry or {}
         self.head = head or {}
+        # contract of ONE iteration: clauses checked when the body of the arbitrary iteration ends
+        # normally (or by continue); old(...) in them is the state at the head of that iteration
+        self.body_ensures = _clauses(body_ensures)
 
 
 class Spec:
@@ -696,6 +699,22 @@ class Spec:
             m, fn, q = r
             X.call_closure(Closure(fn, None, m, cls=q), [obj] + list(args), kwargs, node)
         return obj
+
+    def alloc_havoc(self, sort_name):
+        """Havoc of the allocation ghost of a sort: an unknown number of objects may have been
+        created, none disappears."""
+        def hv(X):
+            S = usort(sort_name)
+            key = 'alloc_' + sort_name
+            if key not in X.ghost:
+                self.alloc_array(X, S)      # first use: the entry array itself
+                return
+            old = X.ghost[key]
+            new = z3.Const(X.fresh_name('alloc_' + sort_name), old.sort())
+            o = z3.Const('o_al', S)
+            X.assume(forall([o], z3.Implies(old[o], new[o]), patterns=[old[o]]))
+            X.ghost[key] = new
+        return hv
 
     def alloc_array(self, X, S):
         key = 'alloc_' + S.name()
